@@ -19,11 +19,10 @@ its transactions in state `s`" (properties C39 and C41).
   attempt row of the job (duplicated and stale reports are allowed).
 * faults: `deactivate_instance` of any instance (preemption, activation timeout, …).
 
-Where the model is more permissive than the real database: the real function `is_job_cancelled` (migration 119) is written
-with a scalar subquery over `job_group_self_and_ancestors ⋈ job_groups_cancelled` and raises MySQL error 1242 ("Subquery
-returns more than 1 row") when two ancestors-or-self of the job's group are both cancelled; the model's `jobCancelled` is a
-total Boolean (`List.any`).  Every guard below that mentions `jobCancelled` therefore describes the procedure's behaviour
-when at most one ancestor is cancelled; with two, `schedule_job` / `mark_job_started` fail in the real system.
+`jobCancelled` is a total Boolean (`List.any` over the cancelled ancestors-or-self of the job's group) and so is the real function
+`is_job_cancelled` since migration 121 (repo commit 2813d614a: `LIMIT 1` in its lateral subquery; the definition of 119 raised MySQL
+error 1242 when two ancestors-or-self were cancelled).  The same commit makes the running-job-groups SELECT of `user_runnable_jobs`
+return each group once, so `schedulable` (one selection per job) is what the scheduler does for any number of cancelled ancestors.
 -/
 namespace HailVerif.BatchDB
 
